@@ -1065,7 +1065,7 @@ fn main() {
 			name: "poll",
 			rule: "tree: main 5-60 blocks + 0-4 branches (depth 0-20, near-tie lengths, work classes 2/4/8, 10% with a PoW-invalid block); SpvClient from a generated position with an empty cache, 1-8 polls of generated tips with 40% faulted + one final fault-free poll. Non-trivial: >=1 reorg, or a fault interrupted an advance of >=2 blocks",
 			quick_cases: 160_000,
-			thorough_cases: 8_000_000,
+			thorough_cases: 6_000_000,
 			max_shrink: 3000,
 		},
 		case_strat(small),
@@ -1076,7 +1076,7 @@ fn main() {
 			name: "sync",
 			rule: "same trees; 1-4 listeners at generated valid positions (stale forks, locators with holes, top 0-16 stale blocks unknown to the source), synchronize_listeners (40% faulted, one fault-free retry), then polls through the returned cache. Non-trivial: >=1 listener disconnected, or a fault left partial progress / interrupted an advance",
 			quick_cases: 100_000,
-			thorough_cases: 5_000_000,
+			thorough_cases: 4_000_000,
 			max_shrink: 3000,
 		},
 		case_strat(Shape { listeners: (1, 4), ..small }),
@@ -1088,7 +1088,7 @@ fn main() {
 			name: "deep",
 			rule: "main 1030-1300 blocks (> HEADER_CACHE_LIMIT = 1008) + 0-2 branches forking up to 1250 below a tip, 0-2 listeners, 1-4 polls. Non-trivial as above; labels count reorgs deeper than the header cache",
 			quick_cases: 2_000,
-			thorough_cases: 100_000,
+			thorough_cases: 80_000,
 			max_shrink: 400,
 		},
 		case_strat(deep),
